@@ -28,7 +28,7 @@ func runC24(tr *vh.Trace, rnd *rand.Rand, nscen, nact int) {
 		}
 		sc := genScenario(rnd, 5)
 		tr.Emit(dbEvent(sc))
-		d := buildDB(rnd, sc, nil)
+		d := buildDB(rnd, sc, nil, nil)
 		g := &Gen{rnd: rnd, sc: sc, nview: &nview, noViews: true}
 		// one third of the scenarios run all their statements in ONE transaction, so each
 		// statement reads the uncommitted writes of the previous ones
